@@ -148,9 +148,16 @@ inline void m01(const Edge& e, const Parsed&) {
 	bool rootIn = !e.initial && e.pre.active != NONE8;
 	int cur = (!e.initial && e.pre.active != NONE8) ? e.pre.active : -1;
 	bool companion = false;   // after a mark the events belong to a copy that inherited (rootIn, cur)
+	unsigned injIn[9] = {0}; bool injInit[9] = {false};
 	for (int i = 0; i < e.nev; ++i) {
 		const Ev& v = e.tr[i];
 		if (v.kind == EV_MARK) { if (v.a == 2 && e.res.ret) companion = true; continue; }
+		if (v.kind == EV_CB && v.inj && !companion && (v.meth == M_ENTER || v.meth == M_EXIT)) {   // injected mix-ins are entered and exited in pairs like the state they belong to
+			const int slot = v.sid == ROOT ? N : v.sid; if (slot <= N && v.inj < 8) { const unsigned bit = 1u << v.inj;
+				if (!injInit[slot]) { injInit[slot] = true; injIn[slot] = (v.sid == ROOT ? (!e.initial && e.pre.active != NONE8) : (!e.initial && e.pre.active == v.sid)) ? 0xFFu : 0u; }
+				if (v.meth == M_ENTER) { if (injIn[slot] & bit) flag(C01, "injection-enter-unpaired", e, "ev %d: enter of injection %d of %s%d although it was entered and not exited", i, v.inj, v.sid == ROOT ? "R" : "S", v.sid == ROOT ? 0 : v.sid); injIn[slot] |= bit; }
+				else { if (!(injIn[slot] & bit)) flag(C01, "injection-exit-unpaired", e, "ev %d: exit of injection %d of %s%d although it was not entered", i, v.inj, v.sid == ROOT ? "R" : "S", v.sid == ROOT ? 0 : v.sid); injIn[slot] &= ~bit; } }
+		}
 		if (v.kind != EV_CB || v.inj) continue;
 		const bool rootCb = v.sid == ROOT;
 		if (v.meth == M_ENTER) {
@@ -365,6 +372,8 @@ inline void m04_passive(const Edge& e, const Parsed& P) {
 // =========================================================================== C05
 inline void m05(const Edge& e, const Parsed& P) {
 	const uint8_t A = e.initial ? NONE8 : e.pre.active;
+	// a const query a callback sends to its own machine reaches the head and the state active at that moment, each member once
+	for (int i = 0; i < e.nev; ++i) { const Ev& v = e.tr[i]; if (v.kind == EV_MARK) break; if (v.kind == EV_CB && (v.ctl & 0x20)) { flag(C05, "reentrant-query", e, "ev %d: a query issued from %s of %s%d (machine reports state %d active) was not delivered to the head and that state exactly once each with the caller's object", i, METH_NAME[v.meth], v.sid == ROOT ? "R" : "S", v.sid == ROOT ? 0 : v.sid, v.m_active == NONE8 ? -1 : v.m_active); break; } }
 	if (e.op.k == OP_UPDATE || e.op.k == OP_REACT) {
 		const bool up = e.op.k == OP_UPDATE;
 		const uint8_t pre = up ? M_PRE_UPDATE : M_PRE_REACT, mid = up ? M_UPDATE : M_REACT, post = up ? M_POST_UPDATE : M_POST_REACT;
